@@ -513,6 +513,7 @@ theorem C11_dotfile_fake (o : GlobOpts) (t : Tree) (pat : String) (ps : List Pat
 /-- a pattern (component) that can match a leading dot: after any number of `*`, its next token is a literal dot. -/
 def dotOpen (o : GlobOpts) : List Tok → Bool
   | .star :: ts => dotOpen o ts
+  | .recStar :: ts => dotOpen o ts
   | .lit c :: _ => charsEq o '.' c
   | _ => false
 
@@ -532,6 +533,9 @@ theorem C11_dotfile (o : GlobOpts) (hdot : o.literalLeadingDot = true) :
     | star =>
       simp only [dotOpen] at h
       simp [matchToks, starLoop, hdot, ih rest h]
+    | recStar =>
+      simp only [dotOpen] at h
+      simp [matchToks, recLoop, hdot, ih rest h]
 
 /-- the same after a separator inside a path pattern. -/
 theorem C11_dotfile_in_path (o : GlobOpts) (hdot : o.literalLeadingDot = true) (ts : List Tok) (rest : List Char)
@@ -565,6 +569,20 @@ example : tokenize "p[a-c].x".toList = .ok [.lit 'p', .within false [.range 'a' 
     tokenize "[a-c-e]".toList = .ok [.within false [.range 'a' 'c', .single '-', .single 'e']] ∧
     tokenize "[".toList = .invalid ∧ tokenize "[]".toList = .invalid ∧ tokenize "[!]".toList = .invalid ∧
     tokenize "x[a".toList = .invalid := by
+  decide
+
+/-- `**` is a token only as a whole path component; the slash behind it belongs to it; `a**`, `**b`, `***` are refused -/
+example : tokenize "a/**/b".toList = .ok [.lit 'a', .lit '/', .recStar, .lit 'b'] ∧
+    tokenize "**/x".toList = .ok [.recStar, .lit 'x'] ∧ tokenize "a/**".toList = .ok [.lit 'a', .lit '/', .recStar] ∧
+    tokenize "a**/b".toList = .invalid ∧ tokenize "a/**b".toList = .invalid ∧ tokenize "***".toList = .invalid := by
+  decide
+
+/-- `**` spans directories but never enters one whose name begins with a dot, and what follows it starts a component -/
+example : let o : GlobOpts := {}
+    globMatches o [.lit 'r', .lit '/', .recStar, .star, .lit '.', .lit 'l'] "r/a.l" = true ∧
+    globMatches o [.lit 'r', .lit '/', .recStar, .star, .lit '.', .lit 'l'] "r/m/n/c.l" = true ∧
+    globMatches o [.lit 'r', .lit '/', .recStar, .star, .lit '.', .lit 'l'] "r/.git/c.l" = false ∧
+    globMatches o [.lit 'r', .lit '/', .recStar, .lit 'c'] "r/m/xc" = false := by
   decide
 
 /-! ## termination: every load ends in `ok` or `err` (cycles in `err RecursiveInclude`) — reused by C06 -/
@@ -870,8 +888,10 @@ theorem C11_prod_terminates (o : GlobOpts) (t : Tree) (fuel : Nat) (hfuel : t.fi
     · rfl
     · exact extGlob_crashes t s
     · split
-      · split <;> rfl
       · exact extGlob_crashes t s
+      · split
+        · split <;> rfl
+        · exact extGlob_crashes t s
 
 /-! ## non-vacuity: the hypotheses are met by concrete trees, and the negative cases really fail -/
 
